@@ -110,8 +110,9 @@ def read_ndjson(path):
 # ---------------------------------------------------------------- TLC
 _stat_re = re.compile(r"^(\d+) states generated, (\d+) distinct states found")
 
+_cov_re = re.compile(r"^<(\w+) line \d+, col \d+ to line \d+, col \d+ of module (\w+)>: (\d+):(\d+)$")
 def tlc(run, module, cfg_text, name=None, workers=1, timeout=900, heap="6g", extra_args=(),
-        simulate=None, count=True, coverage=False, extra_files=None):
+        simulate=None, count=True, coverage=False, extra_files=None, unfired_ok=()):
     """Run TLC on spec/<module>.tla with the given cfg text in a private copy of
     the spec directory. Returns (stdout lines). Raises Infra on any TLC error
     that is not a property/invariant report (those do not occur: judges print
@@ -157,6 +158,19 @@ def tlc(run, module, cfg_text, name=None, workers=1, timeout=900, heap="6g", ext
         tail = [l for l in lines if not l.startswith('<<"')][-40:]
         raise Infra("TLC did not complete cleanly on %s (exit %d):\n%s\n...\n%s" % (name, p.returncode, "\n".join(errs), "\n".join(tail)))
     shutil.rmtree(os.path.join(d, "meta"), ignore_errors=True)
+    if coverage:
+        # vacuity guard: with -coverage 1 TLC prints <Action line .. of module M>: distinct:generated for every
+        # action of the next-state relation; an action that never fired means its part of the model was never
+        # exercised, so whatever was "checked" about it is vacuous (exit 2, never a pass)
+        acts = {}
+        for l in lines:
+            m = _cov_re.match(l)
+            if m and m.group(1) not in ("Init",):
+                acts[m.group(1)] = acts.get(m.group(1), 0) + int(m.group(4))
+        never = sorted(a for a, g in acts.items() if g == 0 and a not in unfired_ok and not a.endswith("Init"))
+        run.extra.setdefault("action_coverage", {})[name] = {a: g for a, g in sorted(acts.items()) if not a.endswith("Init")}
+        if never:
+            raise Infra("vacuous model run %s: action(s) never taken: %s" % (name, ", ".join(never)))
     return lines, (gen, dist), time.time() - t0
 
 def tagged(lines, tag):
